@@ -361,9 +361,13 @@ def translate_tables():
     lines.append("Definition gen_h1_close_if_request_open : bool := %s." % (
         "true" if (re.search(r"let\s+request_unfinished\s*=\s*!stream\.front\.is_terminated\(\)\s*;", wb)
                    and re.search(r"if\s+stream\.context\.keep_alive_frontend\s*&&\s*!ended_by_close\s*&&\s*!request_unfinished\s*\{", wb)) else "false"))
+    lines.append("Definition gen_h1_head_gate : bool := %s." % (
+        "true" if (re.search(r"let\s+head_incomplete\s*=\s*matches!\(self\.position,\s*Position::Server\)\s*&&\s*!kawa\.is_main_phase\(\)\s*&&\s*!kawa\.is_error\(\)\s*;", wb)
+                   and re.search(r"if\s+!head_incomplete\s*\{(?:(?!\n        \}).)*kawa\.prepare\(&mut kawa::h1::BlockConverter\)", wb, re.S)
+                   and len(re.findall(r"kawa\.prepare\(", wb)) == 1) else "false"))
     lines.append("Definition gen_tables : tables :=\n  mkT gen_esd gen_connect gen_redirect_fallback gen_front_timeout gen_back_timeout\n"
                  "      (fun h2 => if h2 then gen_end_arm_h2 else gen_end_arm_h1) gen_default_answer_effs gen_force_effs gen_known_codes\n"
-                 "      gen_conn_retries gen_retry_guard_ge gen_rearm_after_write gen_rearm_delay_close gen_rearm_wait gen_rearm_backend_wait\n      gen_h1_close_after_close gen_h1_close_if_request_open.")
+                 "      gen_conn_retries gen_retry_guard_ge gen_rearm_after_write gen_rearm_delay_close gen_rearm_wait gen_rearm_backend_wait\n      gen_h1_close_after_close gen_h1_close_if_request_open gen_h1_head_gate.")
     return "\n".join(lines) + "\n", fails
 
 
@@ -583,7 +587,7 @@ def bb_scenarios(tier, rng):
           ("chunked_close_at", 60), ("chunked_close_at", len(HEAD_CH + CHUNKED)),
           ("close_delim_at", 50), ("close_delim_at", len(HEAD_CD + BODY)), ("keepalive_close", 0),
           ("cl_close_at", 30), ("cl_close_at", 66), ("cl_close_at", len(HEAD_CLC + BODY)), ("cl_close_twice", 0),
-          ("early_response", 0), ("continue100", 0), ("expect100", 0), ("hints103", 0),
+          ("early_response", 0), ("continue100", 0), ("expect100", 0), ("hints103", 0), ("processing102", 0),
           ("continue_then_close", 0), ("continue_then_close", 1), ("continue_then_close", 2),
           ("upgrade_then_close", 0), ("two_finals", 0),
           ("reuse_stall", 0), ("reuse_stall_after", 65), ("reuse_close_at", 0), ("reuse_close_at", 30), ("reuse_close_at", 65),
@@ -646,7 +650,7 @@ def extra_stage(tier, rng, work):
             index.append((len(flat), len(sch), blen))
             flat += sch
             continue
-        if kind in ("keepalive_close", "cl_close_twice", "early_response", "continue100", "expect100", "hints103",
+        if kind in ("keepalive_close", "cl_close_twice", "early_response", "continue100", "expect100", "hints103", "processing102",
                     "continue_then_close", "upgrade_then_close", "two_finals", "sticky_refusing"):
             index.append(None)
             continue
@@ -724,8 +728,8 @@ def extra_stage(tier, rng, work):
                     bad.append((i, "bb-cross-request", "two_finals: observed %s: the second request must get its own response (body 'B...'), not the surplus response of the first"
                                 % [(r["status"], r["body"], r.get("b0")) for r in rs]))
                 continue
-            if kind in ("continue100", "expect100", "hints103"):
-                want1 = 103 if kind == "hints103" else 100
+            if kind in ("continue100", "expect100", "hints103", "processing102"):
+                want1 = {"hints103": 103, "processing102": 102}.get(kind, 100)
                 ok = len(rs) == 2 and rs[0]["status"] == want1 and rs[0]["complete"] and classify_obs(rs[1]) == "relay" and rs[1]["body"] == 20
                 if not ok:
                     bad.append((i, "bb-interim", "%s: observed %s (expected interim %d, then the relayed 200 with 20 bytes)"
